@@ -236,6 +236,10 @@ func (pkg *pkg) Print() error {
 }
 
 func (pkg *pkg) Delete() error {
+	if pkg.fullpath == "" {
+		// a package without source files has no generated file, do not delete the one in the current directory.
+		return nil
+	}
 	filename := pkg.Filename()
 	_, err := os.Stat(filename)
 	if err != nil {
